@@ -7,14 +7,15 @@ import (
 	"strings"
 	"unicode/utf8"
 
+	"github.com/jmeaster30/vore/libvore"
 	"github.com/jmeaster30/vore/libvore/engine"
 )
 
 func init() {
 	register(&Check{
-		ID:    "C17",
-		Level: "exploration",
-		Rule: "24 programs (find and replace, no / flat / nested variables from named loops, zero matches, skip windows, two commands) x every text of <= 4 (thorough 5) symbols over {a, \", \\, newline, 0x01, e-acute (2 bytes), 0xff, tab}: Json() and FormattedJson() must return, be valid JSON, decode to equal documents with one object per match whose filename, matchNumber, offset, line, column, value, variables (recursively) equal the in-memory match and whose replacement key is present exactly for replace commands; strings are compared exactly when valid UTF-8 and after U+FFFD substitution otherwise; non-trivial = distinct (program,text) pairs with at least one match",
+		ID:     "C17",
+		Level:  "exploration",
+		Rule:   "28 programs (find and replace, no / flat / nested variables from named loops, zero matches, skip windows, two commands, replacement text with per-cent signs) x every text of <= 4 (thorough 5) symbols over {a, \", \\, newline, 0x01, e-acute (2 bytes), 0xff, tab, %}, plus three programs on every list length 0..1100 (thorough 4200) matches: Json() and FormattedJson() must return, be valid JSON, decode to equal documents with one object per match whose filename, matchNumber, offset, line, column, value, variables (recursively) equal the in-memory match and whose replacement key is present exactly for replace commands; strings are compared exactly when valid UTF-8 and after U+FFFD substitution otherwise; non-trivial = distinct (program,text) pairs with at least one match",
 		Assume: []string{"encoding/json is the arbiter of validity and decoding"},
 		Budget: map[string]int{"quick": 120, "thorough": 900},
 		Run:    runC17,
@@ -27,6 +28,7 @@ var c17Programs = []string{
 	"find all at least 1 (at least 1 ((not '\\n') = c) named inner maybe '\\n') named outer", "replace all at least 1 (any = c) named l with 'R'", "find skip 1 take 2 any",
 	"find last 1 any", "find all @/(?<n>.)(.)?/", "find all line start at least 1 not '\\n'", "find all 'a'\nreplace all any with 'b'", "replace all 'a' with 'X'\nfind all any", "replace all any with ''\nfind all (any = x)\nreplace all 'a' with x", "find all whole line", "find all (any = value) (any = filename)",
 	"set t to transform return match + '\"' + '\\\\' end\nreplace all any with t", "find all caseless 'A' any", "find all in 'a', '\"', '\\\\' any", "find top 1 (at least 1 any) = all", "find all (not in 'a') = matchNumber",
+	"replace all any with '100% of %d' value '%s'", "replace all ((not 'a') = p) maybe 'a' with p p",
 }
 
 // toValidUTF8 replaces every invalid byte by U+FFFD (what encoding/json does; one
@@ -130,7 +132,7 @@ func c17Check(ms engine.Matches, doc []any, isReplace func(i int) bool) string {
 }
 
 func runC17(c *Ctx) {
-	syms := []string{"a", "\"", "\\", "\n", "\x01", "é", "\xff", "\t"}
+	syms := []string{"a", "\"", "\\", "\n", "\x01", "é", "\xff", "\t", "%"}
 	var txts []string
 	var gen func(cur string, n int)
 	maxN := c.Pick(4, 5)
@@ -160,10 +162,37 @@ func runC17(c *Ctx) {
 			continue
 		}
 		for _, t := range txts {
+			c17Eval(c, prog, v, t)
+		}
+	}
+	// long result lists: every length 0..N (the renderings must carry every match, whatever the list length)
+	if c.Level("long lists") {
+		for _, prog := range []string{"find all any", "replace all 'a' with 'b'", "find all ('a' = x)"} {
+			for lo := 0; lo <= c.Pick(1100, 4200); lo += 50 {
+				prog, lo := prog, lo
+				if !c.Unit(func() string { return fmt.Sprintf("%s on %d..%d matches", prog, lo, lo+49) }) {
+					continue
+				}
+				v, err, pi := compileSafe(prog)
+				if err != nil || pi != nil {
+					c.Count("rejected_sources", 1)
+					continue
+				}
+				for n := lo; n < lo+50; n++ {
+					c17Eval(c, prog, v, strings.Repeat("a", n))
+				}
+			}
+		}
+	}
+}
+
+func c17Eval(c *Ctx, prog string, v *libvore.Vore, t string) {
+	{
+		{
 			c.Eval(1)
 			ms, pi := runSafe(v, t)
 			if pi != nil {
-				continue // C09
+				return // C09
 			}
 			if len(ms) > 0 {
 				c.Nontrivial(1)
@@ -172,31 +201,35 @@ func runC17(c *Ctx) {
 			var compact, formatted string
 			if pi := guard(func() { compact = ms.Json() }); pi != nil {
 				c.Violation("JSON-PANIC Json "+pi.Site, fmt.Sprintf("%q on %q: Json() panics: %s", prog, t, pi.Msg), rec)
-				continue
+				return
 			}
 			if pi := guard(func() { formatted = ms.FormattedJson() }); pi != nil {
 				c.Violation("JSON-PANIC FormattedJson "+pi.Site, fmt.Sprintf("%q on %q: FormattedJson() panics: %s", prog, t, pi.Msg), rec)
-				continue
+				return
 			}
 			var d1, d2 any
 			if !json.Valid([]byte(compact)) || !json.Valid([]byte(formatted)) || json.Unmarshal([]byte(compact), &d1) != nil || json.Unmarshal([]byte(formatted), &d2) != nil {
 				c.Violation("JSON-INVALID", fmt.Sprintf("%q on %q: output is not valid JSON: %.120q", prog, t, compact), rec)
-				continue
+				return
 			}
 			if !reflect.DeepEqual(d1, d2) {
 				c.Violation("JSON-COMPACT-VS-FORMATTED", fmt.Sprintf("%q on %q: compact and formatted renderings decode to different documents", prog, t), rec)
-				continue
+				return
 			}
 			arr, ok := d1.([]any)
 			if !ok && !(d1 == nil && len(ms) == 0) {
 				c.Violation("JSON-SHAPE", fmt.Sprintf("%q on %q: top level is not an array: %.80q", prog, t, compact), rec)
-				continue
+				return
 			}
 			if d1 == nil {
 				c.Violation("JSON-SHAPE null", fmt.Sprintf("%q on %q: an empty result renders as %q, not as an empty list", prog, t, compact), rec)
-				continue
+				return
 			}
-			c.Outcome(compact)
+			if len(compact) < 300 {
+				c.Outcome(compact)
+			} else {
+				c.Outcome(fmt.Sprintf("%d objects, %d bytes", len(arr), len(compact)))
+			}
 			if msg := c17Check(ms, arr, nil); msg != "" {
 				key := strings.Fields(msg)
 				c.Violation("JSON-FIELD "+key[len(key)-1][:1]+" "+strings.SplitN(msg, ":", 2)[0][:5], fmt.Sprintf("%q on %q: %s; json=%.200q", prog, t, msg, compact), rec)
